@@ -87,7 +87,19 @@ class LibTag(LibraryMiddleware):
         return library
 
 
+class AddField(BlockMiddleware):
+    """In-place probe that gives every entry one more field with a long key (changes what 'auto' alignment must use)."""
+
+    def __init__(self):
+        super().__init__(allow_inplace_modification=True)
+
+    def transform_entry(self, entry, library):
+        entry.set_field(Field("checked_by_the_librarian_on", "{today}"))
+        return entry
+
+
 POOL = [
+    ("AddField", lambda: AddField()),
     ("T1", lambda: Tag("<1>")),
     ("T2", lambda: Tag("<2>")),
     ("T3", lambda: Tag("<3>")),
@@ -537,8 +549,55 @@ def check_key_collision(acc):
                 )
 
 
+class Proto2(BlockMiddleware):
+    """Two kinds of blocks with two different result shapes within one pass."""
+
+    def __init__(self, mapping):
+        super().__init__(allow_inplace_modification=True)
+        self.mapping = {KINDS[k]: RESULTS[r][0] for k, r in mapping.items()}
+
+    def transform_block(self, block, library):
+        f = self.mapping.get(type(block))
+        return f(block) if f is not None else block
+
+
+MIXED_SHAPES = ["None", "[]", "block", "[b,c]", "(b,c,d)", "[c,b]", "dict.values()"]
+
+
+def check_mixed_protocol(acc):
+    """Removals, expansions and one-to-one results mixed within ONE pass of one middleware, in both orders of the two
+    kinds in the document (an expansion before a removal, a removal before an expansion, two expansions ...)."""
+    for ka, kb in itertools.permutations(KINDS, 2):
+        for ra in MIXED_SHAPES:
+            for rb in MIXED_SHAPES:
+                for route in ("transform", "parse_string"):
+                    case = {"mixed_protocol": {ka: ra, kb: rb}, "route": route}
+                    acc.trace(2)
+                    acc.case(nontrivial_key=("mixed", ka, ra, kb, rb, route))
+                    _N[0] = 0
+                    exp_blocks = []
+                    for b in Splitter(PROTO_DOC).split().blocks:
+                        r = RESULTS[ra][0](b) if type(b) is KINDS[ka] else (RESULTS[rb][0](b) if type(b) is KINDS[kb] else b)
+                        if r is None:
+                            continue
+                        exp_blocks.extend([r] if isinstance(r, Entry.__mro__[1]) else list(r))
+                    exp = ("ok", [canon(b) for b in exp_blocks])
+                    _N[0] = 0
+                    if route == "transform":
+                        got = attempt(lambda: [canon(b) for b in Proto2({ka: ra, kb: rb}).transform(Splitter(PROTO_DOC).split()).blocks])
+                    else:
+                        got = attempt(lambda: [canon(b) for b in bibtexparser.parse_string(PROTO_DOC, parse_stack=[Proto2({ka: ra, kb: rb})]).blocks])
+                    acc.step(("mixed", ka, kb, route), (ra, rb), "ok" if got[0] == "ok" else got)
+                    if got != exp:
+                        acc.violation(
+                            {"oracle": "block_result_protocol", "result": "two shapes in one pass", "expected_kind": "blocks"},
+                            {"case": case, "observed": repr(got)[:300], "expected": repr(exp)[:300]},
+                        )
+
+
 def check_protocol(acc):
     check_key_collision(acc)
+    check_mixed_protocol(acc)
     for kind in KINDS:
         for result, (fn, eff) in RESULTS.items():
             for route in ("transform", "parse_string", "write_string"):
@@ -821,7 +880,7 @@ def replay(case, acc):
     with tempfile.TemporaryDirectory(prefix="verif-c20-") as tmpdir:
         if "stack_idx" in case:
             check_stack(POSITIONS.index(case["position"]), case["doc"], tuple(case["stack_idx"]), case["container"], acc, tmpdir)
-        elif "protocol" in case:
+        elif "protocol" in case or "mixed_protocol" in case:
             check_protocol(acc)
         elif "hooks" in case:
             check_hooks(acc, "quick" if len(case["hooks"]) <= 2 else "thorough")
